@@ -42,11 +42,21 @@ type vLibServer struct {
 }
 
 func vStartLibServer(key vKeyPair, clients []ed25519.PublicKey, withSvc bool, opts ...ServerOption) *vLibServer {
+	return vStartLibServerAt(key, clients, withSvc, 0, opts...)
+}
+
+// the credentials option at position pos of the option list (options must not depend on their order)
+func vStartLibServerAt(key vKeyPair, clients []ed25519.PublicKey, withSvc bool, pos int, opts ...ServerOption) *vLibServer {
 	lis, err := net.Listen("tcp", "127.0.0.1:0")
 	if err != nil {
 		panic(err)
 	}
-	all := append([]ServerOption{WithCreds(key.Priv, clients)}, opts...)
+	if pos > len(opts) {
+		pos = len(opts)
+	}
+	all := append([]ServerOption{}, opts[:pos]...)
+	all = append(all, WithCreds(key.Priv, clients))
+	all = append(all, opts[pos:]...)
 	s := NewServer(all...)
 	ls := &vLibServer{S: s, Addr: lis.Addr().String(), lis: lis, Key: key, Impl: &vImpl{}}
 	if withSvc {
@@ -58,6 +68,21 @@ func vStartLibServer(key vKeyPair, clients []ed25519.PublicKey, withSvc bool, op
 
 func vDialLib(ctx context.Context, addr string, key vKeyPair, serverPub ed25519.PublicKey, opts ...DialOption) (*ClientConn, error) {
 	all := append([]DialOption{WithTransportCreds(key.Priv, serverPub), WithLogger(vQuietLogger{})}, opts...)
+	return DialWithContext(ctx, addr, all...)
+}
+
+// the credentials option (by key or by signer) at position pos of the option list
+func vDialLibAt(ctx context.Context, addr string, key vKeyPair, serverPub ed25519.PublicKey, pos int, signer bool, opts ...DialOption) (*ClientConn, error) {
+	if pos > len(opts) {
+		pos = len(opts)
+	}
+	creds := WithTransportCreds(key.Priv, serverPub)
+	if signer {
+		creds = WithTransportSigner(key.Priv, serverPub)
+	}
+	all := append([]DialOption{WithLogger(vQuietLogger{})}, opts[:pos]...)
+	all = append(all, creds)
+	all = append(all, opts[pos:]...)
 	return DialWithContext(ctx, addr, all...)
 }
 
